@@ -220,6 +220,8 @@ class Cases:
                 if st2["first"] is None:
                     st2["first"] = dict(case=_plain(case), got=repr(got), want="defined behaviour (reached through %s)"
                                         % f.pqn)
+                if st2["ubfirst"] is None:
+                    st2["ubfirst"] = st2["first"]
                 return
             st["bad"] += 1
             if st["first"] is None:
@@ -257,7 +259,7 @@ def flush_stats(chk, rule, stats):
         where = "%s:%d" % (C.rel(pkey[0]), pkey[1])
         total += st["n"]
         if st["bad"]:
-            w = st["first"]
+            w = st["first"] or st.get("ubfirst") or dict(case={}, got="?", want="?")
             chk.bad(rule, where, pqn, clause,
                     "%s: on region %s the code %s, specified: %s (%d of %d regions disagree)" % (
                         clause, _case_txt(w["case"]), w["got"], w["want"], st["bad"], st["n"]),
